@@ -56,20 +56,24 @@ def run_sequential(case):
 
     logging.disable(logging.CRITICAL)
     B = emodify.build(json.loads(json.dumps(case)))
-    text = case["text"]
+    text = emodify.flat_of(case)
     sizes = [emodify.block_size(d) for d in text]
     starts = [b.address for b in B.blocks]
-    sect = B.blocks[0].section
+    sects = [b.section for b in B.blocks]
+    base = {id(x): min(bi.address for bi in x.byte_intervals) for x in set(sects)}
+    rel = [b.address - base[id(b.section)] for b in B.blocks]      # positions are kept relative to the section start
     edits = list(enumerate(case.get("edits", [])))
     order = sorted(edits, key=lambda ie: (ie[1]["block"], ie[1]["off"], ie[1].get("len", 0) != 0, ie[0]))
-    shift = 0
+    shifts = {}
     err = None
     for _, e in order:
         funcs = gtirb_functions.Function.build_functions(B.m)
         ctx = RewritingContext(B.m, funcs)
+        sect = sects[e["block"]]
+        shift = shifts.get(id(sect), 0)
         base0 = min(bi.address for bi in sect.byte_intervals)
         total0 = sum(bi.size for bi in sect.byte_intervals)
-        pos = starts[e["block"]] + e["off"] + shift
+        pos = base0 + rel[e["block"]] + e["off"] + shift
         blocks = sorted(sect.byte_blocks, key=lambda b: (b.address, b.size != 0))
         at_end = e["off"] == sizes[e["block"]] and e["op"] == "insert"
         target = None
@@ -98,7 +102,7 @@ def run_sequential(case):
         except Exception as ex:  # noqa: BLE001
             err = "%s: %s" % (type(ex).__name__, str(ex)[:120])
             break
-        shift += sum(bi.size for bi in sect.byte_intervals) - total0
+        shifts[id(sect)] = shift + sum(bi.size for bi in sect.byte_intervals) - total0
     return B, err
 
 
@@ -180,7 +184,7 @@ def check_case(ctx, case):
     for d in case["text"]:
         d.pop("align", None)
     nedits = len(case.get("edits", []))
-    text = case["text"]
+    text = emodify.flat_of(case)
     whole = {e["block"] for e in case.get("edits", []) if e["op"] == "delete" and e["off"] == 0 and e["len"] == emodify.block_size(text[e["block"]])}
     multi = any(sum(1 for x in case["edits"] if x["block"] == b) > 1 for b in whole)
     problems = []
